@@ -10,6 +10,7 @@ import (
 	"encoding/json"
 	"fmt"
 	"go/ast"
+	"go/build/constraint"
 	"go/format"
 	"go/parser"
 	"go/token"
@@ -25,6 +26,15 @@ const SimsyncImport = "github.com/cbeuw/Cloak/internal/simsync"
 // Packages instrumented (relative to the repository root).
 var Packages = []string{"internal/multiplex", "internal/server", "internal/server/usermanager", "internal/client", "internal/common"}
 
+// Programs: command packages that are made importable for the simulation. The
+// copy is the shipped source with the package clause renamed, main() renamed
+// Main(), and the process-level calls replaced by hooks the harness sets:
+// net.Listen / net.ListenUDP -> simsync.HookListen / HookListenUDP,
+// &net.Dialer{...} -> simsync.HookDialer(&net.Dialer{...}) (the harness sees
+// the dialer the program built), log.Fatal* -> simsync.Fatal* (unwinds the
+// task instead of exiting the process).
+var Programs = map[string]string{"cmd/ck-client": "internal/verifmain/ckclient"}
+
 type Stats struct {
 	Files     int
 	Yields    int
@@ -32,6 +42,7 @@ type Stats struct {
 	MapRanges int
 	Timers    int
 	TypeSeams int
+	ProgramHooks int
 	TxCallbacks int
 	// RangesUnknown lists range statements whose operand type could not be
 	// resolved (possible un-rewritten map iteration).
@@ -43,7 +54,17 @@ type Stats struct {
 func Build(repo, outDir, overlayDir string) (*Stats, error) {
 	st := &Stats{}
 	overlay := map[string]string{}
+	type job struct{ src, dst, asPkg string }
+	var jobs []job
 	for _, pkg := range Packages {
+		jobs = append(jobs, job{pkg, pkg, ""})
+	}
+	for src, dst := range Programs {
+		jobs = append(jobs, job{src, dst, filepath.Base(dst)})
+	}
+	sort.Slice(jobs, func(i, j int) bool { return jobs[i].src < jobs[j].src })
+	for _, jb := range jobs {
+		pkg := jb.src
 		dir := filepath.Join(repo, pkg)
 		ents, err := os.ReadDir(dir)
 		if err != nil {
@@ -77,8 +98,11 @@ func Build(repo, outDir, overlayDir string) (*Stats, error) {
 		for i, f := range files {
 			n := fnames[i]
 			in := &inst{fset: fset, rel: filepath.Join(pkg, n), info: info, st: st}
+			if jb.asPkg != "" {
+				in.program(f, jb.asPkg)
+			}
 			in.file(f)
-			dst := filepath.Join(outDir, pkg, n)
+			dst := filepath.Join(outDir, jb.dst, n)
 			if err := os.MkdirAll(filepath.Dir(dst), 0o755); err != nil {
 				return nil, err
 			}
@@ -89,7 +113,7 @@ func Build(repo, outDir, overlayDir string) (*Stats, error) {
 			if err := os.WriteFile(dst, buf.Bytes(), 0o644); err != nil {
 				return nil, err
 			}
-			overlay[filepath.Join(dir, n)] = dst
+			overlay[filepath.Join(repo, jb.dst, n)] = dst
 			st.Files++
 		}
 	}
@@ -119,10 +143,15 @@ func excludedByBuildTag(f *ast.File) bool {
 		}
 		for _, c := range cg.List {
 			t := c.Text
-			if strings.HasPrefix(t, "//go:build") || strings.HasPrefix(t, "// +build") {
-				if strings.Contains(t, "gofuzz") || strings.Contains(t, "android") || strings.Contains(t, "ignore") {
-					return true
+			if strings.HasPrefix(t, "//go:build") {
+				expr, err := constraint.Parse(t)
+				if err != nil {
+					continue
 				}
+				ok := expr.Eval(func(tag string) bool {
+					return tag == "linux" || tag == "amd64" || tag == "unix" || tag == "verif" || strings.HasPrefix(tag, "go1.")
+				})
+				return !ok
 			}
 		}
 	}
@@ -173,6 +202,66 @@ func (in *inst) site(p token.Pos) *ast.BasicLit {
 func (in *inst) yieldStmt(p token.Pos) ast.Stmt {
 	in.st.Yields++
 	return &ast.ExprStmt{X: &ast.CallExpr{Fun: sel("simsync", "Yield"), Args: []ast.Expr{in.site(p)}}}
+}
+
+func (in *inst) program(f *ast.File, asPkg string) {
+	f.Name = ast.NewIdent(asPkg)
+	for _, d := range f.Decls {
+		if fd, ok := d.(*ast.FuncDecl); ok && fd.Recv == nil && fd.Name.Name == "main" {
+			fd.Name = ast.NewIdent("Main")
+		}
+	}
+	isSel := func(e ast.Expr, x, s string) bool {
+		se, ok := e.(*ast.SelectorExpr)
+		if !ok {
+			return false
+		}
+		id, ok := se.X.(*ast.Ident)
+		return ok && id.Name == x && se.Sel.Name == s
+	}
+	wrapDialer := func(e ast.Expr) ast.Expr {
+		if u, ok := e.(*ast.UnaryExpr); ok && u.Op == token.AND {
+			if cl, ok := u.X.(*ast.CompositeLit); ok && isSel(cl.Type, "net", "Dialer") {
+				in.st.ProgramHooks++
+				return &ast.CallExpr{Fun: sel("simsync", "HookDialer"), Args: []ast.Expr{e}}
+			}
+		}
+		return e
+	}
+	ast.Inspect(f, func(n ast.Node) bool {
+		switch n := n.(type) {
+		case *ast.CallExpr:
+			switch {
+			case isSel(n.Fun, "net", "Listen"):
+				n.Fun = sel("simsync", "HookListen")
+				in.st.ProgramHooks++
+			case isSel(n.Fun, "net", "ListenUDP"):
+				n.Fun = sel("simsync", "HookListenUDP")
+				in.st.ProgramHooks++
+			case isSel(n.Fun, "log", "Fatal"):
+				n.Fun = sel("simsync", "Fatal")
+				in.st.ProgramHooks++
+			case isSel(n.Fun, "log", "Fatalf"):
+				n.Fun = sel("simsync", "Fatalf")
+				in.st.ProgramHooks++
+			}
+			if !isSel(n.Fun, "simsync", "HookDialer") {
+				for i, a := range n.Args {
+					n.Args[i] = wrapDialer(a)
+				}
+			}
+		case *ast.AssignStmt:
+			for i, r := range n.Rhs {
+				n.Rhs[i] = wrapDialer(r)
+			}
+		case *ast.Field:
+			if star, ok := n.Type.(*ast.StarExpr); ok && isSel(star.X, "net", "UDPConn") {
+				n.Type = sel("net", "PacketConn")
+				in.st.TypeSeams++
+			}
+		}
+		return true
+	})
 }
 
 func (in *inst) file(f *ast.File) {
